@@ -41,13 +41,20 @@ func (p *MapToTags) Run() {
 		// The incoming IP might also have been sent to other processes
 		// connected to the same out-port, which can be reading its tags and
 		// audit info at any time, so the tags are not added to the incoming IP
-		// itself, but to a new IP for the same file (which gets its own copy of
-		// the audit info, loaded from the audit file of the incoming IP)
-		taggedIP, err := scipipe.NewFileIP(ip.Path())
-		if err != nil {
-			p.Fail(err)
+		// itself, but to a copy of it (which gets its own copy of the audit
+		// info, loaded from the audit file of the incoming IP, and carries the
+		// same sub-stream, if any)
+		taggedIP := ip
+		if !ip.IsStreamed() {
+			// (A streamed file has this process as its only receiver, and its
+			// audit info is still to be completed by the task that is writing
+			// it, so that IP is tagged and passed on itself, as it always was)
+			var err error
+			taggedIP, err = ip.Copy()
+			if err != nil {
+				p.Fail(err)
+			}
 		}
-		taggedIP.AddTags(ip.Tags())
 		taggedIP.AddTags(newTags)
 		taggedIP.WriteAuditLogToFile()
 		p.Out().Send(taggedIP)
